@@ -8,7 +8,14 @@ Driver: feeds the real ``mparser.Parser(text).parse()`` (from $VERIF_REPO) with
   (3) every build file shipped under "test cases" / "manual tests", unmutated and mutated (token
       deletion / duplication / swap / insertion, byte-level edits with quotes, backslashes, CR, tabs, BOM,
       NUL, non-ASCII, foreign line separators),
-  (4) a deep-nesting class (depth 10..3000, 16 forms) reported separately,
+  (4) a deep-nesting class reported separately: every nesting / chaining shape swept through the WHOLE band of
+      depths up to where the parser starts to reject (boundaries found by bisection + an even grid + fixed depths
+      10..3000): whatever the parser accepts must also be printable,
+  (4b) every byte class (CR, CR LF, LF CR, controls, foreign line separators, BOM, NUL, non-ASCII, surrogates,
+      quote / escape / substitution syntax) at every position INSIDE every token kind that carries content
+      (the four string kinds, comments, continuations, blanks), in several syntactic contexts - exhaustive product,
+  (4c) tokens of extreme length of every kind (decimal literals around Python's 4300-digit int() limit and far
+      beyond, long 0x/0o/0b literals, ids, strings, comments, blank runs, newline runs),
   (5) directed probes for every listed finding, and the same contracts installed as a
       ``runner.meson`` monitor around real ``meson setup`` runs (proves the wrapper is reached),
 while ``vf.monitors.c02_parse`` judges every outcome (exception policy, byte-exact reprint, token
@@ -50,7 +57,15 @@ PROBES: T.Dict[str, T.List[str]] = {
     'rewriter-splitlines-foreign-line-separator': ['# page\x0cbreak\nx = [1]\n', "s = 'a\u2028b'\ny = f(s)\n",
                                                    "# \x85\nexecutable('a', ['a.c'])\n", '# plain\nx = [1]\n'],
     'parser-recursion-error-deep-nesting': ['x = ' + '(' * 200 + '1' + ')' * 200 + '\n', 'x = ' + '[' * 30 + ']' * 30 + '\n'],
-    'printer-recursion-error-deep-tree': ['x = 1' + ' + 1' * 500 + '\n', 'x = 1' + ' + 1' * 50 + '\n'],
+    'printer-recursion-error-deep-tree': ['x = 1' + ' + 1' * 500 + '\n', 'x = 1' + ' + 1' * 50 + '\n',
+                                          'x = a' + '.m()' * 700 + '\n', 'x = a' + '[0]' * 700 + '\n'],
+    'printer-recursion-error-nested-blocks': ['if true\n' * 250 + 'x = 1\n' + 'endif\n' * 250,
+                                              'foreach i : l\n' * 300 + 'x = 1\n' + 'endforeach\n' * 300,
+                                              'if true\n' * 20 + 'x = 1\n' + 'endif\n' * 20],
+    'printer-recursion-error-assignment-chain': ['a = ' * 700 + '1\n', 'a = ' * 20 + '1\n'],
+    'internal-error:ValueError:huge-integer-literal': ['x = ' + '1' * 4301 + '\n', '9' * 10000, 'x = ' + '9' * 4300 + '\n',
+                                                       'x = [' + '1' * 4299 + ', 0x' + 'f' * 5000 + ']\n',
+                                                       'f(0o' + '7' * 6000 + ', 0b' + '1' * 20000 + ')\n'],
 }
 
 
@@ -204,16 +219,108 @@ def _work(item: tuple) -> Acc:
                 acc.kinds['corpus:mutant:' + o.status] = acc.kinds.get('corpus:mutant:' + o.status, 0) + 1
         acc.workload = 'corpus'
         acc.notes['rejected_files'] = rejected_files
-    elif kind == 'deep':
-        _, _, form, depth = item
+    elif kind == 'bytes':
+        _, _, tkind = item
+        acc.workload = 'bytes:' + tkind
+        cells: T.Dict[str, T.List[int]] = {}           # payload -> [accepted, rejected, other]
+        for i, (payload, text) in enumerate(gen.byte_class_texts(tkind)):
+            if not i & 255 and time.time() > deadline:
+                acc.truncated = True
+                break
+            out = acc.one(text, {'token_kind': tkind, 'payload': payload})
+            cell = cells.setdefault(payload, [0, 0, 0])
+            cell[0 if out.status == 'accepted' else 1 if out.status == 'rejected' else 2] += 1
+        acc.notes['bytes'] = [tkind, cells]
+    elif kind == 'extreme':
+        _, _, tkind = item
+        acc.workload = 'extreme:' + tkind
+        by_len: T.Dict[str, T.List[int]] = {}          # length -> [accepted, rejected, other]
+        for n, text in gen.extreme_length_texts(tkind):
+            if time.time() > deadline:
+                acc.truncated = True
+                break
+            out = acc.one(text, {'token_kind': tkind, 'length': n}, reparse=n <= 4302)
+            cell = by_len.setdefault(str(n), [0, 0, 0])
+            cell[0 if out.status == 'accepted' else 1 if out.status == 'rejected' else 2] += 1
+        acc.notes['extreme'] = [tkind, by_len]
+    elif kind == 'deepband':
+        _, _, form, ngrid = item
         acc.workload = 'deep'
-        text = gen.DEEP_FORMS[form](depth)
-        out = acc.one(text, {'form': form, 'depth': depth}, reparse=depth <= 120)
-        cls = out.status
-        for mechanism, _d in out.violations:
-            cls = mechanism
-            break
-        acc.notes['deep'] = [form, depth, cls]
+        mk = gen.DEEP_FORMS[form]
+        seen: T.Dict[int, str] = {}
+        details: T.Dict[int, dict] = {}
+
+        def cls(depth: int) -> str:
+            if depth not in seen:
+                # slice re-parsing is quadratic in the depth: only at small depths and two fixed larger ones
+                out = acc.one(mk(depth), {'form': form, 'depth': depth}, reparse=depth <= 12 or depth in (30, 60))
+                c = out.status
+                for mechanism, d in out.violations:
+                    c = mechanism
+                    details[depth] = d
+                    break
+                seen[depth] = c
+            return seen[depth]
+
+        def first(lo: int, hi: int, pred: T.Callable[[str], bool]) -> int:
+            # smallest depth in (lo, hi] satisfying pred, given pred(hi) and (assumed) not pred(lo)
+            while hi - lo > 1 and time.time() < deadline:
+                mid = (lo + hi) // 2
+                if pred(cls(mid)):
+                    hi = mid
+                else:
+                    lo = mid
+            return hi
+
+        def unprintable(c: str) -> bool:
+            return c not in ('accepted', 'rejected')
+
+        top = gen.DEEP_MAX
+        first_rejected: T.Optional[int] = None
+        if cls(top) == 'rejected':
+            first_rejected = first(0, top, lambda c: c == 'rejected')
+            top = first_rejected - 1
+        first_bad: T.Optional[int] = None
+        if top >= 1 and unprintable(cls(top)):
+            first_bad = first(0, top, unprintable)
+        # the band below the rejection boundary, evenly; the boundary itself; the fixed depths (monotonicity is an
+        # assumption of the bisections only - these points do not depend on it)
+        if first_rejected is None and first_bad is None:
+            span = 0                        # wide-not-deep controls: no band, the fixed depths only
+        elif first_rejected is None:
+            span = min(top, 2 * T.cast(int, first_bad))    # flat chains the parser never rejects: up to twice the failing depth
+        else:
+            span = top
+        grid = {max(1, (span * k) // ngrid) for k in range(1, ngrid + 1)} if span >= 1 else set()
+        grid.update(d for d in (top - 2, top - 1, top, top + 1, top + 2, top + 10) if 1 <= d <= gen.DEEP_MAX)
+        grid.update(gen.DEEP_DEPTHS)
+        for depth in sorted(grid):
+            if time.time() > deadline:
+                acc.truncated = True
+                break
+            cls(depth)
+        bad = sorted(d for d, c in seen.items() if unprintable(c))
+        # the witness of a recursion mechanism: not the first failing depth (it fails only under exactly this
+        # process's stack depth - a replay from a shallower stack would pass) but one well inside the failing band
+        for mechanism, slot in list(acc.mech.items()):
+            if 'recursion' not in mechanism:
+                continue
+            ds = [d for d in bad if seen[d] == mechanism]
+            if not ds:
+                continue
+            want = min(ds[-1], ds[0] + max(25, ds[0] // 4))
+            if cls(want) != mechanism:
+                want = max(d for d in ds if d <= want)
+            text = mk(want)
+            slot[1] = [{'workload': 'deep', 'text': text[:MAX_WITNESS_TEXT], 'text_truncated': len(text) > MAX_WITNESS_TEXT,
+                        'detail': details.get(want, {}), 'origin': {'form': form, 'depth': want, 'first_failing_depth': ds[0],
+                                                                   'last_failing_depth_examined': ds[-1]}}]
+        acc.notes['deepband'] = {
+            'form': form, 'first_rejected': first_rejected, 'first_unprintable': first_bad if first_bad is not None else (bad[0] if bad else None),
+            'last_unprintable': bad[-1] if bad else None, 'unprintable_as': sorted({seen[d] for d in bad}),
+            'depths_examined': len(seen), 'table': {str(d): seen[d] for d in gen.DEEP_DEPTHS if d in seen},
+            'accepted_and_printed_up_to': max((d for d, c in seen.items() if c == 'accepted'), default=None),
+        }
     elif kind == 'probe':
         _, _, mechanism, texts = item
         acc.workload = 'probe:' + mechanism
@@ -380,19 +487,25 @@ def main() -> int:
         items.append(('corpus', deadline, chk.seed, files[i:i + fper], nmut))
     for mechanism, texts in PROBES.items():
         items.append(('probe', deadline, mechanism, texts))
+    for tkind in gen.TOKEN_CONTENT:
+        items.append(('bytes', deadline, tkind))
+    for tkind in gen.EXTREME_TOKENS:
+        items.append(('extreme', deadline, tkind))
     only = os.environ.get('VERIF_C02_ONLY')      # development aid: comma list of workload kinds
     if only:
         items = [it for it in items if it[0] in only.split(',')]
     # the deciding part first (corpus, exhaustive enumeration, probes: a time-budget cut there makes the run
     # inconclusive); the sampled part after it (a cut there only lowers the counts shown in the evidence)
-    weight = {'corpus': 0, 'enum': 1, 'probe': 2, 'prog': 3, 'ctx': 4, 'soup': 5}
+    weight = {'probe': 0, 'bytes': 0, 'extreme': 0, 'corpus': 1, 'enum': 2, 'prog': 3, 'ctx': 4, 'soup': 5}   # cheap deciding items first
     items.sort(key=lambda it: weight[it[0]])
     items = first + items
 
     results = common.pmap(work, items, chk.jobs, timeout=budget + 600)
 
     # deep nesting: own pool (a crashing interpreter must not take the other results with it)
-    deep_items = [('deep', deadline + 120, form, d) for form in gen.DEEP_FORMS for d in gen.DEEP_DEPTHS]
+    deep_items = [('deepband', deadline + 120, form, 8 if quick else 64) for form in gen.DEEP_FORMS]
+    if only and 'deepband' not in only.split(','):
+        deep_items = []
     try:
         deep_results = common.pmap(work, deep_items, chk.jobs, timeout=600)
     except Exception as e:   # BrokenProcessPool etc.
@@ -409,6 +522,9 @@ def main() -> int:
     truncated = 0
     rejected_files: T.List[str] = []
     deep_table: T.Dict[str, T.Dict[str, str]] = {}
+    deep_band: T.Dict[str, dict] = {}
+    byte_matrix: T.Dict[str, T.Dict[str, T.List[int]]] = {}
+    extreme_matrix: T.Dict[str, T.Dict[str, T.List[int]]] = {}
     probes: T.Dict[str, T.List[int]] = {}
 
     cpu: T.Dict[str, float] = {}
@@ -441,9 +557,16 @@ def main() -> int:
             cur.sort(key=lambda x: len(x['text']))
             del cur[3:]
         rejected_files.extend(r['notes'].get('rejected_files', []))
-        if 'deep' in r['notes']:
-            form, depth, cls = r['notes']['deep']
-            deep_table.setdefault(form, {})[str(depth)] = cls
+        if 'deepband' in r['notes']:
+            b = dict(r['notes']['deepband'])
+            deep_table[b['form']] = b.pop('table')
+            deep_band[b.pop('form')] = b
+        if 'bytes' in r['notes']:
+            tkind, cells = r['notes']['bytes']
+            byte_matrix[tkind] = cells
+        if 'extreme' in r['notes']:
+            tkind, by_len = r['notes']['extreme']
+            extreme_matrix[tkind] = by_len
         if 'probe' in r['notes']:
             m, seen, n = r['notes']['probe']
             probes[m] = [seen, n]
@@ -465,7 +588,9 @@ def main() -> int:
         chk.count('violation-cases:' + mechanism, mech_total[mechanism])
         for k, w in enumerate(ws[:2]):
             w = dict(w)
-            if mechanism not in chk.known and k == 0 and not w.get('text_truncated'):
+            if mechanism not in chk.known and k == 0 and not w.get('text_truncated') and 'recursion' not in mechanism:
+                # (recursion mechanisms are not minimised: the smallest failing text depends on the stack depth of
+                # the process that judges it and would not replay)
                 small = minimise(w['text'], mechanism)
                 if len(small) < len(w['text']):
                     w['original_length'] = len(w['text'])
@@ -489,7 +614,7 @@ def main() -> int:
     chk.count('workload:corpus-files', kinds.get('corpus:file:accepted', 0) + kinds.get('corpus:file:rejected', 0)
               + kinds.get('corpus:file:internal-error', 0))
     chk.count('workload:budget-truncated-items', truncated)
-    must_cut = sum(v for k, v in trunc_kind.items() if k in ('enum', 'corpus', 'probe', 'deep'))
+    must_cut = sum(v for k, v in trunc_kind.items() if k in ('enum', 'corpus', 'probe', 'deepband', 'bytes', 'extreme'))
     if must_cut:
         chk.inconclusive.append(f'{must_cut} work items of the exhaustive/corpus part stopped at the time budget '
                                 f'(machine too loaded?): {trunc_kind}')
@@ -504,13 +629,33 @@ def main() -> int:
                  'policy:exception-located', 'wrapped:parse-calls', 'contract:rewriter-splice'):
         chk.require(name, 1)
     chk.require('workload:corpus-files', 1000)
+    # the deep-nesting band: every form must have been swept (boundaries located), and the byte-class product must
+    # have reached accepted trees for every token kind that carries content
+    chk.count('workload:deep-band-forms', len(deep_band))
+    chk.count('workload:deep-band-cases', sum(b['depths_examined'] for b in deep_band.values()))
+    chk.count('workload:deep-band-forms-with-parser-limit', sum(1 for b in deep_band.values() if b['first_rejected']))
+    chk.count('workload:byte-class-cases', sum(sum(c) for cells in byte_matrix.values() for c in cells.values()))
+    for tkind, cells in byte_matrix.items():
+        chk.count(f'workload:byte-class:{tkind}:accepted', sum(c[0] for c in cells.values()))
+        chk.count(f'workload:byte-class:{tkind}:payloads-accepted', sum(1 for c in cells.values() if c[0]))
+    chk.count('workload:extreme-length-cases', sum(sum(c) for cells in extreme_matrix.values() for c in cells.values()))
+    for tkind, cells in extreme_matrix.items():
+        chk.count(f'workload:extreme-length:{tkind}:accepted', sum(c[0] for c in cells.values()))
+        chk.count(f'workload:extreme-length:{tkind}:rejected', sum(c[1] for c in cells.values()))
+    if not only:
+        chk.require('workload:extreme-length-cases', 1500)
+        for tkind in gen.EXTREME_TOKENS:
+            if tkind != 'zero-led':
+                chk.require(f'workload:extreme-length:{tkind}:accepted', 10)
+        chk.require('workload:deep-band-forms', len(gen.DEEP_FORMS))
+        chk.require('workload:deep-band-forms-with-parser-limit', 10)
+        chk.require('workload:byte-class-cases', 5000)
+        for tkind in gen.TOKEN_CONTENT:
+            chk.require(f'workload:byte-class:{tkind}:payloads-accepted', 5)
     for m in PROBES:
         chk.require(f'probe:{m}:texts', 1)
 
-    first_recursion = {}
-    for form, row in deep_table.items():
-        bad = [int(d) for d, cls in row.items() if 'recursion' in cls.lower()]
-        first_recursion[form] = min(bad) if bad else None
+    first_recursion = {form: b['first_unprintable'] for form, b in deep_band.items()}
 
     chk.sample({'workload': 'enum', 'text': "a = [ 1 ]", 'note': 'one of the exhaustively enumerated sequences'})
     return chk.finish(
@@ -537,7 +682,17 @@ def main() -> int:
             'mutation_kinds': {k: v for k, v in sorted(kinds.items())},
             'corpus_files_rejected_unmutated': sorted(rejected_files),
             'mechanisms_observed': dict(sorted(mech_total.items())),
-            'deep_nesting': {'depths': list(gen.DEEP_DEPTHS), 'first_depth_with_recursion_error': first_recursion, 'table': deep_table},
+            'deep_nesting': {'depths': list(gen.DEEP_DEPTHS), 'max_depth': gen.DEEP_MAX,
+                             'first_depth_with_recursion_error': first_recursion,
+                             'band': {k: deep_band[k] for k in sorted(deep_band)}, 'table': deep_table},
+            'byte_classes_inside_tokens': {
+                'payloads': [repr(x) for x in gen.BYTE_CLASSES],
+                'cases_accepted_rejected_other_by_token_kind': {k: [sum(c[i] for c in cells.values()) for i in range(3)]
+                                                                for k, cells in sorted(byte_matrix.items())},
+                'payloads_never_accepted_by_token_kind': {k: sorted(repr(pl) for pl, c in cells.items() if not c[0])
+                                                          for k, cells in sorted(byte_matrix.items())}},
+            'extreme_length_tokens': {'lengths': list(gen.EXTREME_LENGTHS),
+                                      'accepted_rejected_other_by_kind_and_length': {k: extreme_matrix[k] for k in sorted(extreme_matrix)}},
             'probes': probes,
             'cpu_seconds_by_workload': {k: round(v, 1) for k, v in sorted(cpu.items())},
             'work_items_cut_by_time_budget': trunc_kind,
